@@ -31,6 +31,10 @@ pub fn env_of(hash_seed: u64, fake_time: Option<u64>) -> Vec<(String, String)> {
 
 /// Each job runs in its own fresh worker process with its own environment.
 pub fn run_proc_jobs(jobs: &[(Value, Vec<(String, String)>)], scratch: &Path) -> Vec<Outcome> {
+    run_proc_jobs_t(jobs, scratch, 300_000)
+}
+
+pub fn run_proc_jobs_t(jobs: &[(Value, Vec<(String, String)>)], scratch: &Path, timeout_ms: u64) -> Vec<Outcome> {
     let chunks: Vec<Chunk> = jobs
         .iter()
         .enumerate()
@@ -42,7 +46,7 @@ pub fn run_proc_jobs(jobs: &[(Value, Vec<(String, String)>)], scratch: &Path) ->
     let opts = RunOpts {
         engine: "proc".into(),
         workers: orch::n_workers(),
-        job_timeout_ms: 300_000,
+        job_timeout_ms: timeout_ms,
         mem_mb: 6144,
         use_shim: true,
     };
